@@ -86,6 +86,13 @@ def hc(a, b):
     if a > b:
         return a - b
     return b * 2
+
+
+def hl(a, b):
+    return a + 10 * b
+
+
+KK = 7.0
 '''
 HELPER_OTHER = '''
 def h2(a, b):
@@ -95,6 +102,13 @@ def h2(a, b):
 def h3(x, y):
     t = x * 3
     return t - y
+
+
+def hl(a, b):
+    return a * b - 1.0
+
+
+KK = 0.125
 '''
 
 
@@ -157,6 +171,13 @@ def templates(tier):
         yield "call-permuted-names", f"return hs({e1}, {e2})"
         yield "call-conditional-helper", f"return hc({e1}, {e2})"
         yield "call-helper-with-locals", f"return hm.h3({e1}, {e2})"
+    # names bound by an import *inside* the body take precedence over module-level names of the function's module
+    for e1, e2 in it.product(Em, Em):
+        yield "local-import-shadows", f"from mc_c06_helpers import hl\nreturn hl({e1}, {e2})"
+        yield "local-import-module", f"import mc_c06_helpers as hq\nreturn hq.hl({e1}, {e2}) + hl({e2}, {e1})"
+    for e1 in Em:
+        yield "local-import-constant", f"from mc_c06_helpers import KK\nreturn ({e1}) * KK"
+        yield "module-constant-vs-helper-constant", f"return ({e1}) * KK + hm.KK"
     yield "call-permuted-names", "return hs(y, x)"
     yield "call-permuted-names", "return hs(x, y)"
     yield "call-nested", "return h(h(x, y), h(y, x))"
